@@ -31,7 +31,7 @@ def phases(tier):
     n = 300 if tier == 'quick' else 2000
     sh = 2 if tier == 'quick' else 8
     return _e3_phases(tier) + [Search('scheduler-records', lambda: c18.cases(6, [5, 12, 30]), n, shards=sh, tag='sched'),
-                               Search('maintainer-records', lambda: c12.cases(12), n, shards=sh, tag='maint'),
+                               Search('maintainer-records', lambda: c12.cases(12, same_names=False), n, shards=sh, tag='maint'),
                                Search('trace-with-nested-runs', trace_cases, 2 * n, shards=sh, tag='trace')]
 
 
